@@ -322,6 +322,9 @@ def obligations(tier, seed):
     for a in F.SYMBOLIC_FORMS:
         for b in F.SYMBOLIC_FORMS:
             add("mov", [a, b])
+    for late in (False, True):
+        obs.append(Ob(oid=f"lazy-operands/{'late-link' if late else 'link-first'}", harness="pdpverif.props.c01:h_lazy_operands", params={"late": late},
+                      vars={"B": "int", "K": "int"}, timeout=300, per_path=90, note="operand values through a forward alias with coefficients -1 and 3"))
     # register numbers given by a symbol that is defined after the instruction
     for f in [x for x in F.SYMBOLIC_FORMS if F.uses(x)[0]]:
         for mn, fms in (("clr", [f]), ("mov", [f, "imm"]), ("mov", ["abs", f]), ("jsr", ["reg", f]), ("mul", [f, "reg"]), ("ldf", [f, "ac1"]), ("stf", ["ac2", f])):
@@ -357,6 +360,38 @@ def obligations(tier, seed):
         obs.append(Ob(oid=f"alias/{a['mn']}={b['mn']}", harness="pdpverif.props.c01:h_alias", params={"a": a, "b": b},
                       vars={v: "int" for v in dict.fromkeys(va)}, timeout=120, note=f"{a['mn']} == {b['mn']} with fixed operands"))
     return obs
+
+
+def h_lazy_operands(params, vals, ctx):
+    """Operand values that arrive through a symbol bound to a label defined after the instruction, used with
+    coefficients -1 and 3, while the link base is not known yet (or known, for comparison)."""
+    isa = _isa()
+    b, k = vals["B"], vals["K"]
+    require(0 <= b < 30000 and b % 2 == 0)
+    require(-1000 < k < 1000)
+    late = params.get("late", False)
+    body = ("x = tbl + {K}\n"
+            "c = 100.\n"
+            "mov #c-x, r0\n"
+            "mov #x*3 - x - x, @#x\n"
+            "cmp -x(r1), x\n"
+            "tbl: .word 0\n")
+    text = (body + ".link {B}\n") if late else (".link {B}\n" + body)
+    o = assemble([("a.mac", text)], vals, route=ctx.route, order=["B", "K"])
+    ctx.observe_outcome(o)
+    ctx.reach(o.status == "ok")
+    if o.status != "ok" or o.errors or not (o.base == b):
+        return False
+    tbl = b + 4 + 6 + 6
+    x = tbl + k
+    v = {"X1": 100 - x, "X2": x, "T": x, "N1": -x, "R": 1}
+    code = o.code
+    if len(code) != 18:
+        return False
+    ok = decode_matches(isa, "mov", [{"kind": "g", "mode": 2, "reg": 7, "ext": "value", "x": "X1"}, {"kind": "g", "mode": 0, "reg": 0, "ext": None}], code[0:4], b, v)
+    ok = ok and decode_matches(isa, "mov", [{"kind": "g", "mode": 2, "reg": 7, "ext": "value", "x": "X2"}, {"kind": "g", "mode": 3, "reg": 7, "ext": "value", "x": "X2"}], code[4:10], b + 4, v)
+    ok = ok and decode_matches(isa, "cmp", [{"kind": "g", "mode": 6, "reg": 1, "ext": "value", "x": "N1"}, {"kind": "g", "mode": 6, "reg": 7, "ext": "pcrel", "x": "T"}], code[10:16], b + 10, v)
+    return ok
 
 
 def h_alias(params, vals, ctx):
